@@ -108,6 +108,9 @@ def check(chk, repo):
                "the overridden candidate must be the value tested (strictly) against H.cost[q] and passed to update",
                construct="acceptance after label forcing for " + u.event.text())
     check_supervised_premises(chk, rep, repo)
+    # ... on the rows the caller named: a node's id is I[i] (its position only when no index array was given)
+    from .c10 import check_row_ids
+    check_row_ids(chk, rep, repo, only={"Subgraph._build"}, floor=1)
     check_metric_purity(rep, repo)
     from ..rules_heap import check_heap
     check_heap(rep, repo, "HEAP-")
